@@ -120,6 +120,28 @@ func c19r67(p *model.Prog, r *report.Result) {
 					continue // emptied
 				}
 				ok := false
+				isReplacingAppend := func(v ssa.Value) bool {
+					call, isCall := v.(*ssa.Call)
+					if !isCall {
+						return false
+					}
+					bi, isB := call.Call.Value.(*ssa.Builtin)
+					if !isB || bi.Name() != "append" {
+						return false
+					}
+					first := call.Call.Args[0]
+					if isEmptyValue(first) {
+						return true
+					}
+					w := fwdLoadRules(first)
+					return w != nil && isEmptyValue(w)
+				}
+				// through a helper of the package whose every return is such an append
+				if call, isCall := st.Val.(*ssa.Call); isCall {
+					if ce := call.Call.StaticCallee(); ce != nil && ce.Pkg == fn.Pkg && allReturnsSatisfy(ce, 0, isReplacingAppend) {
+						ok = true
+					}
+				}
 				if call, isCall := st.Val.(*ssa.Call); isCall {
 					if bi, isB := call.Call.Value.(*ssa.Builtin); isB && bi.Name() == "append" {
 						first := call.Call.Args[0]
